@@ -90,16 +90,49 @@ class Hull(Family):
             params = [T.corner_params(s, c) for c in _all_corners(pd)]
             for _ in range(3 if pd < 3 else 2):
                 params.append(T.random_params(rng, s)[0])
-            out.append({"shape": s, "params": params, "dirs": _dirs(rng, s["dim"])})
+            c = {"shape": s, "params": params, "dirs": _dirs(rng, s["dim"]), "edit": None}
+            if i % 3 == 1:
+                # the bounding box and the evaluated points are read, THEN the control points are replaced
+                c["edit"] = ["ctrlpts", "scale", "translate"][(i // 3) % 3]
+                c["factor"] = rng.choice([2.0, -1.5, 0.5])
+                c["shift"] = [rng.randint(-40, 40) / 4.0 for _ in range(s["dim"])]
+            out.append(c)
         return out
 
-    def impl(self, c):
+    def _eff(self, c):
+        """the shape the queries are about: after the optional edit of the control points"""
         s = c["shape"]
+        if not c.get("edit"):
+            return s
+        f, sh = F(c["factor"]), [F(x) for x in c["shift"]]
+        if c["edit"] == "scale":
+            P2 = [[float(F(x) * f) for x in pt] for pt in s["ctrlpts"]]
+        elif c["edit"] == "translate":
+            P2 = [[float(F(x) + d) for x, d in zip(pt, sh)] for pt in s["ctrlpts"]]
+        else:
+            P2 = [[float(F(x) * f + d) for x, d in zip(pt, sh)] for pt in s["ctrlpts"]]
+        s2 = dict(s)
+        s2["ctrlpts"] = P2
+        return s2
+
+    def impl(self, c):
+        s0 = c["shape"]
+        s = self._eff(c)
 
         def f():
-            o = T.build(s)
-            if not T.kv_unchanged(o, s):
+            o = T.build(s0)
+            if not T.kv_unchanged(o, s0):
                 return {"skip": "knot vector altered by normalisation"}
+            if c.get("edit"):
+                _ = o.bbox
+                o.sample_size = 2
+                _ = o.evalpts
+                if c["edit"] == "scale":
+                    operations.scale(o, c["factor"], inplace=True)
+                elif c["edit"] == "translate":
+                    operations.translate(o, c["shift"], inplace=True)
+                else:
+                    o.ctrlpts = [list(p) for p in s["ctrlpts"]]
             pts = [T.eval_single(o, p) for p in c["params"]]
             bb = o.bbox
             act = None
@@ -114,7 +147,7 @@ class Hull(Family):
     def coq(self, c, out):
         if "ok" not in out or "skip" in out["ok"]:
             return None
-        s, o = c["shape"], out["ok"]
+        s, o = self._eff(c), out["ok"]
         lets = T.coq_shape_lets(s)
         pts = "[" + "; ".join(T.coq_point(s, p) for p in c["params"]) + "]"
         parts = ["closeLL %s %s" % (pts, G.sll(o["pts"])),
@@ -133,21 +166,22 @@ class Hull(Family):
         return "(" + lets + e + ")"
 
     def coq_show(self, c, out):
-        s = c["shape"]
+        s = self._eff(c)
         return "(" + T.coq_shape_lets(s) + "([" + "; ".join(T.coq_point(s, p) for p in c["params"]) + "], bbox Qops P))"
 
     def oracle(self, c, out):
         if "ok" not in out:
             return "hull: evaluation / bbox / find_ctrlpts failed on a valid shape: %s" % (out,)
-        o, s = out["ok"], c["shape"]
+        o, s = out["ok"], self._eff(c)
         if "skip" in o:
             return None
         P = s["ctrlpts"]
         mn, mx = _bbox_exact(P)
         for name in ("bbox", "bbox_fn"):
             if not (gc.closel(o[name][0], mn) and gc.closel(o[name][1], mx)):
-                return "bbox: %s reports %s, the component-wise min/max of the control points is %s" % (
-                    name, o[name], [[float(x) for x in mn], [float(x) for x in mx]])
+                return "bbox: %s reports %s, the component-wise min/max of the control points is %s%s" % (
+                    name, o[name], [[float(x) for x in mn], [float(x) for x in mx]],
+                    " (the box was read before the control points were replaced by %s)" % c["edit"] if c.get("edit") else "")
         pd = T.PD[s["kind"]]
         corners = _all_corners(pd)
         for k, (prm, pt) in enumerate(zip(c["params"], o["pts"])):
@@ -182,7 +216,8 @@ class Hull(Family):
 
     def stratum(self, c, out):
         s = c["shape"]
-        return "%s/%s/p%s/%s" % (s["kind"], "rat" if s["rational"] else "poly", "".join(str(p) for p in s["degree"]), "+".join(sorted(set(s["kvkind"]))))
+        return "%s/%s/p%s/%s/%s" % (s["kind"], "rat" if s["rational"] else "poly", "".join(str(p) for p in s["degree"]), "+".join(sorted(set(s["kvkind"]))),
+                                    "edit-" + c["edit"] if c.get("edit") else "fresh")
 
 
 class EvalPts(Family):
